@@ -197,8 +197,8 @@ Open ==
   /\ IF Ev.res = "ok"
      THEN \* a clean restart after the faults were cleared: no fault is active any more
           /\ vis' = dur /\ kvis' = kdur /\ flt' = (flt /\ ~clr) /\ UNCHANGED <<viol, bad>>
-     ELSE IF fam = "fault" /\ flt /\ ~clr
-     THEN UNCHANGED <<vis, kvis, flt, viol, bad>>      \* Open failed under an injected fault: allowed
+     ELSE IF fam = "fault" /\ (flt \/ Ev.fault) /\ ~clr
+     THEN /\ flt' = TRUE /\ UNCHANGED <<vis, kvis, viol, bad>>   \* Open failed under an injected fault: allowed
      ELSE /\ V("OpenFailed") /\ bad' = TRUE /\ UNCHANGED <<vis, kvis, flt>>
 
 Close ==
